@@ -449,12 +449,12 @@ GRAMMARS = [
     ('optmust', 'named< 0, opt_must< %s, %s, named< 1, %s > >, %s >' % (S0, S1, S2, S2),
      {'thorough_only': True, 'reach': [R_FALSE, R_GLOBAL, R_RAISE, R_FOREIGN2]}),
     ('combo', 'named< 0, star< sor< named< 1, %s, %s >, %s > >, opt< named< 1, %s, %s > > >' % (S0, S1, S2, S0, S1),
-     {'thorough_only': True, 'N': 3, 'reach': [R_FALSE, R_FOREIGN2, R_TWICE]}),
+     {'thorough_only': True, 'N': 3, 'mem_gb': 6, 'reach': [R_FOREIGN2, R_TWICE, ('%s >= 3' % exp_rule(3, 'C_START'), 'the rule with two parents was started three times')]}),   # star + opt: never returns false
     ('nested_act', 'named< 0, sor< try_catch_type_return_false< verif_exc, try_catch_any_raise_nested< named< 1, %s >, %s > >, %s > >' % (S0, S1, S2),
      {'thorough_only': True, 'action': 'bool', 'reach': [R_FALSE, R_NESTED, R_CONT(2)]}),
     # directly recursive named rule
     ('recursive', 'named< 0, R, %s >' % S2,
-     {'defs': {'R': (150, 'sor< seq< sym<0>, R >, sym<1> >')}, 'maxrec': 3, 'N': 2, 'K': 3, 'stk': True,
+     {'defs': {'R': (150, 'sor< seq< sym<0>, R >, sym<1> >')}, 'maxrec': 3, 'N': 2, 'K': 3, 'stk': True, 'thorough': {'N': 3},
       'reach': [R_FALSE, R_FOREIGN2, R_TWICE, ('%s >= 3' % exp_rule(1, 'C_START'), 'the recursive rule was nested three levels deep')]}),
 ]
 
@@ -506,7 +506,14 @@ def plan(ctx):
                                cbmc_defines={'VF_SPLIT': 1, 'V_' + mode: 1},
                                bounds={'N': N, 'K': o.get('K', 3), 'grammar': gtext, 'rule_types': NR, 'container_capacity': cap, 'branch_map_capacity': capb,
                                        'action': {'bool': 'vf::act_bool (veto / throw)', 'void': 'vf::act_void (throw)'}.get(o.get('action'), 'nothing'),
+                                       'encoded': 'tao::pegtl::coverage< G, Action, vf::vcontrol >() with everything below it inlined into the wrapper by clang: '
+                                                  'internal::coverage_state::{start,success,failure,unwind,raise,raise_nested,apply}< Rule >, '
+                                                  'internal::coverage_insert< Rule >::{visit,visit_branches}, visit<>, parse<>, state_control<>::control< Rule > hooks, '
+                                                  'shuffle_states (rotate_states_right), match<>, internal::match_control_unwind, internal::unwind_guard, the rules\' match()',
                                        'mode': 'coverage<>() itself' if mode == 'cov' else 'coverage_state + state_control<>::type driven through parse<> (name stack observable)'},
                                note='counters of the real coverage_result: balanced, equal to the reference event counts per rule and per branch; map structure == rule structure'
                                     if mode == 'cov' else 'same, and the name stack is empty after every outcome'))
+            # if the solver times out, a check that already failed on the real build for one of the 20 000 validation inputs is replayed and reported (a defect in the
+            # bookkeeping can make the symbolic run much more expensive: exceptions from map::at open many more paths)
+            qs[-1].replay_failing_samples = True
     return qs
